@@ -231,7 +231,7 @@ extern "C" int harness_main() {
     int cur = -1;  // currently referenced target
     bool exp_eval[MAXC];
     Int exp_val[MAXC];
-    bool exp_has[MAXC][3], exp_added[MAXC][3], exp_removed[MAXC][3];
+    bool exp_has[MAXC][3], exp_added[MAXC][3], exp_removed[MAXC][3], exp_retarget[MAXC];
     bool any_retarget_valid = false, any_retarget_invalid = false, any_reselect = false, any_unselected = false, any_back = false, any_same_cycle = false,
          any_set_diff = false;
     int first_target = -1;
@@ -266,6 +266,7 @@ extern "C" int harness_main() {
             cur = want;
         }
         for (int i = 0; i < nt; i++) if (ticked[i] && i != cur) any_unselected = true;
+        exp_retarget[c] = retarget;
         exp_eval[c] = cur >= 0 && t_valid[cur] && (ticked[cur] || retarget);
         exp_val[c] = cur >= 0 ? t_val[cur] : Int{0};
         for (int e = 1; e <= 2; e++) {
@@ -279,7 +280,7 @@ extern "C" int harness_main() {
 
     // ---- oracle (branch-free over symbolic payloads)
     verif_assert(!g_obs_overflow, "C13.log_overflow");
-    bool ok_when = true, ok_value = true, ok_flags = true, ok_delta = true;
+    bool ok_when = true, ok_value = true, ok_flags = true, ok_delta = true, ok_spurious = true, saw_spurious = false;
     int evals = 0;
     for (int k = 0; k < NCONS; k++) {
         bool seen[MAXC] = {};
@@ -293,7 +294,11 @@ extern "C" int harness_main() {
             if (sets) {
                 for (int e = 1; e <= 2; e++) {
                     ok_value &= (o.has[e] == exp_has[o.cycle][e]);
-                    ok_delta &= (o.added[e] == exp_added[o.cycle][e]) & (o.removed[e] == exp_removed[o.cycle][e]);
+                    // reported under its own id: at a retarget, a removal of an element that is in neither the old nor the
+                    // new visible contents (it comes from a removed slot of one of the two targets, see notes/C13.md)
+                    const bool spurious = exp_retarget[o.cycle] && o.removed[e] && !exp_removed[o.cycle][e] && !exp_has[o.cycle][e];
+                    if (spurious) { ok_spurious = false; saw_spurious = true; }
+                    ok_delta &= (o.added[e] == exp_added[o.cycle][e]) & ((o.removed[e] == exp_removed[o.cycle][e]) | spurious);
                 }
             } else {
                 ok_value &= (o.value == exp_val[o.cycle]);
@@ -317,6 +322,7 @@ extern "C" int harness_main() {
     verif_assert(ok_value, "C13.reads_current_target_value");
     verif_assert(ok_flags, "C13.valid_and_modified_at_every_evaluation");
     verif_assert(ok_delta, "C13.set_delta_is_difference_at_retarget");
+    verif_assert(ok_spurious, "C13.set_retarget_reports_no_removal_of_unseen_element");
 
     if (any_retarget_valid) verif_reach("retarget_to_valid_target");
     if (any_retarget_invalid) verif_reach("retarget_to_target_without_value");
@@ -325,6 +331,7 @@ extern "C" int harness_main() {
     if (any_unselected) verif_reach("unselected_target_ticked");
     if (any_back) verif_reach("retarget_back");
     if (any_set_diff) verif_reach("set_retarget_with_difference");
+    if (saw_spurious) verif_reach("class_set_retarget_spurious_removal");
     if (evals > 0) verif_reach(mode == 0 ? "consumer_evaluated_if_then_else" : mode == 1 ? "consumer_evaluated_if_cmp" : mode == 2 ? "consumer_evaluated_set" : "consumer_evaluated_nested");
     verif_log("mode", mode);
     verif_log("evals", evals);
